@@ -49,7 +49,12 @@ Inductive expr :=
 | ETupleLit (items : list expr)
 | EDictLit (items : list (expr * expr))
 | EStar (e : expr)                              (* *e as a positional call argument: the items of e are spliced in *)
-| ESorted (e : expr) (x : string) (key : expr).   (* sorted(e, key=lambda x: key); sorted(e) has key = x *)
+| ESorted (e : expr) (x : string) (key : expr)    (* sorted(e, key=lambda x: key); sorted(e) has key = x *)
+| EListComp (elt : expr) (x : string) (names : list string) (it : expr) (cond : expr).
+    (* [elt for x in it if cond]  (names = [], cond = True when there is no `if`);
+       [elt for a, b in it if cond]  has x = a fresh "$t.." and names = [a; b]: each item is bound to x and
+       unpacked into the names (ValueError unless it has exactly that many components).  The names bound by the
+       comprehension are local to it (Python 3): their previous bindings are restored afterwards. *)
 
 (* assignment targets *)
 Inductive target :=
@@ -71,4 +76,9 @@ Inductive stmt :=
 | SExpr (e : expr)                               (* call evaluated for its effects *)
 | STry (body handler : stmt)                     (* try: body / except: handler  (catches every exception) *)
 | SYield (e : expr)
-| SDel (t : target).
+| SDel (t : target)
+| STryExc (body : stmt) (handlers : list (list string * stmt))
+    (* try: body / except A: h1 / except (B, C): h2 ...  - the first handler that names the exception runs (a handler
+       naming "Exception" / "BaseException" catches every exception); an exception no handler names propagates *)
+| SContinue                                      (* `continue`: ends the current iteration of the enclosing SForC *)
+| SForC (x : string) (e : expr) (body : stmt).   (* a `for` whose body contains a `continue` of its own *)
